@@ -489,6 +489,179 @@ namespace {
     if (o.has_value()) c.check(*o2 == -*o, "C12.gk.swap", "I(b,a) != -I(a,b) on " + std::to_string(shape));
   }
 
+  // ---------------------------------------------------------------- every ordered pair of bound kinds
+  /*
+   * (a,b) in {finite, +inf, -inf, numeric_limits::max(), numeric_limits::lowest()}^2, both overloads.
+   * Integrand integrable on the whole line with a known antiderivative.  Claims:
+   *  - I(b,a) = -I(a,b) bitwise (value present for both orders or for none), both overloads;
+   *  - adaptive overload (max()/lowest() documented as infinities): value within the requested tolerance of
+   *    the oriented exact integral when the estimate is reliable (same replay as gk_analytic);
+   *  - (value, error) overload with finite or true infinite bounds: the value is the 15 point Kronrod value of
+   *    the documented change of variable, oriented by the order of the bounds (compared with the long double
+   *    replay), and within the replayed estimate of the exact integral when that estimate is reliable.
+   *    max()/lowest() are finite numbers for this overload (only FP_INFINITE is tested): sign swap only.
+   */
+  void gkBounds(verif::Case& c) {
+    using tfel::math::gauss_kronrod_integrate;
+    static const char* const names[5] = {"finite", "+inf", "-inf", "max", "lowest"};
+    const int ka = static_cast<int>(c.pick(5, "kind_a")), kb = static_cast<int>(c.pick(5, "kind_b"));
+    const double A = c.chance(1, 3, "unit_amp") ? 1. : c.log10real(-3, 3, "amp") * (c.boolean("neg") ? -1 : 1);
+    const double s = c.real(0.4, 2.5, "s");
+    const double m = c.sreal(1, "m");
+    const int k = static_cast<int>(c.pick(4, "g2"));
+    const double atolr = c.log10real(-11, -2, "atol");
+    const std::size_t nref = static_cast<std::size_t>(c.integer(1, 14, "nref"));
+    const double inf = std::numeric_limits<double>::infinity();
+    const double dmax = std::numeric_limits<double>::max();
+    auto bound = [&](const int kind, const char* nm) {
+      switch (kind) {
+        case 0: return m + s * c.sreal(4, nm);
+        case 1: return inf;
+        case 2: return -inf;
+        case 3: return dmax;
+        default: return std::numeric_limits<double>::lowest();
+      }
+    };
+    const double a = bound(ka, "ya"), b = bound(kb, "yb");
+    c.tag(std::string("bounds.") + names[ka] + "," + names[kb]);
+    c.nontrivial(ka != 0 || kb != 0);
+    auto fl = [=](const R x) -> R {
+      const R y = (x - m) / s;
+      if (std::isinf(static_cast<double>(y))) return 0;
+      R v = 0;
+      switch (k) {
+        case 0: v = 1 / (1 + y * y); break;
+        case 1: v = std::exp(-y * y); break;
+        case 2: v = 1 / ((1 + y * y) * (1 + y * y)); break;
+        default: {
+          const R ch = std::cosh(y);
+          v = std::isfinite(static_cast<double>(ch)) ? 1 / (ch * ch) : 0;
+        }
+      }
+      return A * v / s;
+    };
+    auto prim = [=](const R x) -> R {
+      const bool isinf = std::isinf(static_cast<double>(x));
+      const R y = isinf ? x : (x - m) / s;
+      switch (k) {
+        case 0: return A * std::atan(y);
+        case 1: return A * std::sqrt(ref::pi) / 2 * std::erf(y);
+        case 2: return A * ((isinf ? 0 : y / (1 + y * y)) + std::atan(y)) / 2;
+        default: return A * std::tanh(y);
+      }
+    };
+    auto f = [&fl](const double x) { return static_cast<double>(fl(static_cast<R>(x))); };
+    auto same = [](const double x, const double y) { return x == y || (std::isnan(x) && std::isnan(y)); };
+    const R scale = std::fabs(prim(INFINITY) - prim(-INFINITY));
+    const double atol = static_cast<double>(scale) * atolr;
+    const tfel::math::GaussKronrodQuadrature::NumericalParameters<double> prm{.absolute_tolerance = atol,
+                                                                               .maximum_number_of_refinements = nref};
+    const std::string pair = std::string(names[ka]) + "_" + names[kb];
+    // ---- sign swap, both overloads, every combination
+    const auto t1 = gauss_kronrod_integrate(f, a, b), t2 = gauss_kronrod_integrate(f, b, a);
+    c.check(t1.has_value() == t2.has_value(), "C12.gk.bounds.swap.tuple", "value for one order only: " + pair);
+    if (t1.has_value()) {
+      c.check(same(std::get<0>(*t2), -std::get<0>(*t1)), "C12.gk.bounds.swap.tuple",
+              "I(b,a) != -I(a,b), (value,error) overload, bounds " + pair + ": " + std::to_string(std::get<0>(*t1)) +
+                  " and " + std::to_string(std::get<0>(*t2)));
+      c.check(same(std::get<1>(*t2), std::get<1>(*t1)), "C12.gk.bounds.swap.tuple",
+              "error estimates differ when the bounds are swapped: " + pair);
+    }
+    const auto o1 = gauss_kronrod_integrate(f, a, b, prm), o2 = gauss_kronrod_integrate(f, b, a, prm);
+    c.check(o1.has_value() == o2.has_value(), "C12.gk.bounds.swap.adaptive", "value for one order only: " + pair);
+    if (o1.has_value())
+      c.check(same(*o2, -*o1), "C12.gk.bounds.swap.adaptive",
+              "I(b,a) != -I(a,b), adaptive overload, bounds " + pair + ": " + std::to_string(*o1) + " and " +
+                  std::to_string(*o2));
+    // ---- values.  Extended bounds as each overload documents them
+    auto ext = [&](const int kind, const double v, const bool max_is_inf) -> R {
+      if (kind == 1 || (kind == 3 && max_is_inf)) return R(INFINITY);
+      if (kind == 2 || (kind == 4 && max_is_inf)) return -R(INFINITY);
+      return R(v);
+    };
+    for (const bool adaptive : {false, true}) {
+      if (!adaptive && (ka >= 3 || kb >= 3)) continue;  // max()/lowest() are plain numbers for the tuple overload
+      const R ea = ext(ka, a, adaptive), eb = ext(kb, b, adaptive);
+      const bool ia = std::isinf(static_cast<double>(ea)), ib = std::isinf(static_cast<double>(eb));
+      if (ia && ib && (ea > 0) == (eb > 0)) {
+        c.tag("bounds.same_sign_infinities");
+        continue;  // nothing is stated about an empty interval at infinity
+      }
+      if (ea == eb) continue;
+      const R lo = std::min(ea, eb), hi = std::max(ea, eb);
+      const R sign = ea < eb ? 1 : -1;
+      const R exact = sign * (prim(hi) - prim(lo));
+      const bool lo_inf = std::isinf(static_cast<double>(lo)), hi_inf = std::isinf(static_cast<double>(hi));
+      // documented changes of variable
+      RefGK rg;
+      R factor = 1, tlo = -1, thi = 1, lipx = 0;
+      std::function<R(R, R)> part;
+      std::string cls;
+      if (lo_inf && hi_inf) {
+        cls = ".infinite";
+        auto xoft = [](const R t) { return std::fabs(t) >= 1 ? (t > 0 ? R(INFINITY) : -R(INFINITY)) : t / (1 - t * t); };
+        rg.ut = [=](const R t) {
+          const R v = fl(xoft(t)) * (1 + t * t) / ((1 - t * t) * (1 - t * t));
+          return std::isfinite(static_cast<double>(v)) ? v : R(0);
+        };
+        part = [=](const R tc, const R td) { return prim(xoft(td)) - prim(xoft(tc)); };
+      } else if (lo_inf || hi_inf) {
+        cls = ".half_infinite";
+        const R x0 = hi_inf ? lo : hi, sg = hi_inf ? 1 : -1;
+        factor = 2;
+        auto xoft = [=](const R t) { return t <= -1 ? sg * R(INFINITY) : x0 + sg * (2 / (t + 1) - 1); };
+        rg.ut = [=](const R t) {
+          const R v = fl(xoft(t)) / ((t + 1) * (t + 1));
+          return std::isfinite(static_cast<double>(v)) ? v : R(0);
+        };
+        // |x - x0| decreases with t
+        part = [=](const R tc, const R td) { return sg * (prim(xoft(tc)) - prim(xoft(td))); };
+        lipx = std::fabs(R(A)) * 2 * std::fabs(x0) / (R(s) * s);
+      } else {
+        cls = ".finite";
+        tlo = lo;
+        thi = hi;
+        rg.ut = [=](const R t) { return fl(t); };
+        part = [=](const R tc, const R td) { return prim(td) - prim(tc); };
+        lipx = std::fabs(R(A)) * 2 * std::max(std::fabs(lo), std::fabs(hi)) / (R(s) * s);
+      }
+      const R rounding = KQ * u * (20 * scale + lipx);
+      rg.margin = rounding / factor;
+      if (adaptive) {
+        rg.run(tlo, thi, atol, nref);
+        bool reliable = !rg.exhausted;
+        for (const auto& l : rg.leaves)
+          if (std::fabs(l.k15 - part(l.c, l.d) / factor) > l.est + 1e-17L * scale + 1e-300L) reliable = false;
+        if (!o1.has_value()) {
+          c.tag("bounds.adaptive.no_value");
+          continue;
+        }
+        if (!reliable || rg.borderline) {
+          c.tag("bounds.adaptive.unreliable_or_borderline");
+          continue;
+        }
+        const R err = std::fabs(R(*o1) - exact);
+        const bool doubled = factor == 2 && err > atol + rounding && err <= 2 * (atol + rounding);
+        c.close(*o1, exact, atol + rounding,
+                doubled ? "C12.gk.analytic.within_tolerance.half_infinite.doubled_tolerance"
+                        : "C12.gk.bounds.adaptive.value" + cls,
+                "adaptive overload, bounds (" + pair + "), reliable estimate, requested tolerance " +
+                    std::to_string(atol));
+      } else {
+        R k15, est;
+        rg.rule(tlo, thi, k15, est);
+        c.check(t1.has_value(), "C12.gk.bounds.tuple.no_value", "no value for bounds " + pair);
+        const R got = std::get<0>(*t1);
+        c.close(got, sign * factor * k15, (factor == 2 ? 4 : 1) * rounding, "C12.gk.bounds.tuple.kronrod_value" + cls,
+                "(value,error) overload vs the 15 point rule on the documented change of variable, bounds (" + pair + ")");
+        const R truth = part(tlo, thi) / factor;
+        if (std::fabs(k15 - truth) <= est + 1e-17L * scale)
+          c.close(got, exact, factor * est + rounding, "C12.gk.bounds.tuple.value" + cls,
+                  "(value,error) overload vs the exact oriented integral, bounds (" + pair + ")");
+      }
+    }
+  }
+
   // ---------------------------------------------------------------- Runge-Kutta, fixed step
   struct TooManyEvaluations : std::runtime_error {
     TooManyEvaluations() : std::runtime_error("more than 2e6 evaluations of the right-hand side: no termination") {}
@@ -660,6 +833,7 @@ namespace {
 VERIF_SUB(gk_polynomials) { gkPoly(c); }
 VERIF_SUB_W(gk_swap_nan, 0.5) { gkSwapNaN(c); }
 VERIF_SUB_W(gk_analytic, 0.5) { gkAnalytic(c); }
+VERIF_SUB_W(gk_bounds, 0.5) { gkBounds(c); }
 VERIF_SUB_W(rk2_fixed, 0.5) { rkFixed<tfel::math::RungeKutta2>(c, 2, "rk2"); }
 VERIF_SUB_W(rk4_fixed, 0.5) { rkFixed<tfel::math::RungeKutta4>(c, 4, "rk4"); }
 VERIF_SUB(rk42_adaptive) { rkAdaptive<tfel::math::RungeKutta42>(c, 4, 4, "rk42"); }
